@@ -200,7 +200,7 @@ func c09Run(c *core.Ctx) {
 	}
 	c.Info("C.max_tokens", fmt.Sprint(T))
 	g := &tokGen{maxTok: T, maxDepth: 4, scalars: []string{"1", `"a"`, "true"}, keys: []string{`"k"`, `"type"`}}
-	alphabet := []string{"[", "]", "{", "}", ",", ":", "1", `"a"`, "true", `"k"`}
+	alphabet := []string{"[", "]", "{", "}", ",", ":", "1", `"a"`, "true", `"k"`, ";", "=", "'", "(", "#", "/", "\\", "\x00", "\n", ",,", "nul", "-", "1.2.3", `"\u12"`, `"\x"`, "\xff"}
 	docs := uint64(0)
 	g.run(3, c.Next, func(toks []string) {
 		if c.Expired() {
